@@ -116,6 +116,13 @@ func (e *CEnv) tryEval(ex ast.Expr) (v *Val, ok bool) {
 	return e.eval(ex), true
 }
 
+// evMatches: an event is named by its short name, a suffix of its callee key, or - for atomic
+// points - by the operation without the "select " prefix ("send c.writeQueue" matches both the
+// bare send and the select case).
+func evMatches(ev *Event, name string) bool {
+	return ev.Short == name || strings.HasSuffix(ev.Callee, "."+name) || ev.Callee == name || strings.HasSuffix(ev.Short, " "+name)
+}
+
 // hyp / goal evaluate a clause in assumed / to-be-proved position.
 func (e *CEnv) hyp(c Clause) Tm  { return e.withPol(1).evalBool(c) }
 func (e *CEnv) goal(c Clause) Tm { return e.withPol(-1).evalBool(c) }
@@ -1150,7 +1157,7 @@ func (e *CEnv) call(n *ast.CallExpr) *Val {
 		k := 0
 		for i := e.traceBase; i < len(st.trace); i++ {
 			ev := &st.trace[i]
-			if ev.Short == name || strings.HasSuffix(ev.Callee, "."+name) || ev.Callee == name {
+			if evMatches(ev, name) {
 				k++
 			}
 		}
@@ -1161,7 +1168,7 @@ func (e *CEnv) call(n *ast.CallExpr) *Val {
 		idx := -1
 		for i := e.traceBase; i < len(st.trace); i++ {
 			ev := &st.trace[i]
-			if ev.Short == name || strings.HasSuffix(ev.Callee, "."+name) || ev.Callee == name {
+			if evMatches(ev, name) {
 				idx = i - e.traceBase
 				if fname == "first" {
 					break
@@ -1179,7 +1186,7 @@ func (e *CEnv) call(n *ast.CallExpr) *Val {
 		if ev == nil {
 			return boolVal(tFalse)
 		}
-		return boolVal(boolTm(ev.Short == name || strings.HasSuffix(ev.Callee, "."+name) || ev.Callee == name))
+		return boolVal(boolTm(evMatches(ev, name)))
 	case "evarg", "evres":
 		if len(n.Args) != 2 {
 			e.errf("%s(k, j)", fname)
